@@ -927,6 +927,7 @@ func (sn *c04Snap) obs(result string) string {
 // ---------------------------------------------------------------- content pools
 
 type c04Pool struct {
+	kinds [][]byte // GGUFs that ggufLayers makes an ADAPTER / PROJECTOR layer of (general.type); rarely picked
 	ggufs [][]byte
 	texts [][]byte // non-GGUF blobs
 	tmpls [][]byte
@@ -998,6 +999,10 @@ func c04MakePool(t *testing.T, out *zzverif.Out) *c04Pool {
 		{ggml.KV{"general.architecture": "llama", "tokenizer.chat_template": chat("alpaca")}, nil},
 		{ggml.KV{"general.architecture": "llama", "tokenizer.chat_template": "{% nothing the template package knows, long enough to be far from every known chat template: 0123456789 0123456789 0123456789 0123456789 0123456789 0123456789 0123456789 %}"}, nil},
 	}
+	// GGUFs whose general.type makes ggufLayers record an adapter / projector layer instead of a model layer
+	nKinds := 2
+	specs = append(specs, spec{ggml.KV{"general.architecture": "llama", "general.type": "adapter"}, nil},
+		spec{ggml.KV{"general.architecture": "llama", "general.type": "projector"}, []ggml.Tensor{tensor("v", 1)}})
 	dir := t.TempDir()
 	for i, sp := range specs {
 		fn := filepath.Join(dir, fmt.Sprintf("g%d", i))
@@ -1013,7 +1018,11 @@ func c04MakePool(t *testing.T, out *zzverif.Out) *c04Pool {
 		if err != nil {
 			t.Fatal(err)
 		}
-		p.ggufs = append(p.ggufs, b)
+		if i >= len(specs)-nKinds {
+			p.kinds = append(p.kinds, b)
+		} else {
+			p.ggufs = append(p.ggufs, b)
+		}
 		// what the real decoder reports for this file (the values createModel copies into the config)
 		g, _, err := ggml.Decode(bytes.NewReader(b), 0)
 		if err != nil {
@@ -1053,9 +1062,16 @@ func c04MakePool(t *testing.T, out *zzverif.Out) *c04Pool {
 				out.Count("pool_gguf_with_recognised_chat_template")
 			}
 		}
-		p.meta = append(p.meta, fmt.Sprintf("meta %s %s %s %s %s %s", zzverif.Hex(b), c04HexS(g.KV().Architecture()),
+		// the media type, decided as ggufLayers decides it
+		kind := "M"
+		if g.KV().Kind() == "adapter" {
+			kind = "A"
+		} else if _, ok := g.KV()[fmt.Sprintf("%s.vision.block_count", g.KV().Architecture())]; ok || g.KV().Kind() == "projector" {
+			kind = "J"
+		}
+		p.meta = append(p.meta, fmt.Sprintf("meta %s %s %s %s %s %s %s", zzverif.Hex(b), c04HexS(g.KV().Architecture()),
 			c04HexS(format.HumanNumber(g.KV().ParameterCount())), c04HexS(g.KV().FileType().String()),
-			c04OptHex(autoT), c04OptHex(autoP)))
+			c04OptHex(autoT), c04OptHex(autoP), kind))
 	}
 	p.texts = [][]byte{[]byte("not a gguf file\n"), []byte("{\"a\":1}")}
 	p.badT = []byte("{{ .Prompt")
@@ -1219,6 +1235,12 @@ func (r *c04Run) apply(o c04Op) {
 			prob := "show-" + st
 			if !hasModel {
 				prob = "no-model-layer show-" + st
+				for _, l := range m.m.Layers {
+					if c := c04MediaCode[l.MediaType]; c == "A" || c == "J" {
+						// every GGUF of the create was an adapter / projector (finding N6)
+						prob = "no-model-layer(adapter/projector only) show-" + st
+					}
+				}
 			}
 			guard := "held"
 			if c04Mixed(post) {
@@ -1690,6 +1712,9 @@ func (g *c04Gen) fileDigest(sn *c04Snap) c04Digest {
 	switch {
 	case g.r.Chance(1, 20):
 		c = zzverif.Pick(g.r, g.pool.texts)
+	case g.r.Chance(1, 30):
+		c = zzverif.Pick(g.r, g.pool.kinds) // an adapter / projector GGUF (alone: finding N6)
+		g.outCount("file_digest_adapter_or_projector")
 	default:
 		c = zzverif.Pick(g.r, g.pool.ggufs)
 		// mostly blobs that are present
@@ -1719,6 +1744,8 @@ func (g *c04Gen) uploadOp() c04Op {
 	var c []byte
 	if g.r.Chance(1, 8) {
 		c = zzverif.Pick(g.r, g.pool.texts)
+	} else if g.r.Chance(1, 12) {
+		c = zzverif.Pick(g.r, g.pool.kinds)
 	} else {
 		c = zzverif.Pick(g.r, g.pool.ggufs)
 	}
@@ -2323,6 +2350,13 @@ func TestVerifC04(t *testing.T) {
 			{Kind: "litter", File: "sha256-" + strings.ToUpper(c04Sum(g0)), Content: g0},
 			{Kind: "create", Name: nm("library", "b"), Files: []c04Digest{{Hex: strings.ToUpper(c04Sum(g0))}}},
 			{Kind: "delete", Name: nm("library", "a")}, {Kind: "prune"}, {Kind: "delete", Name: nm("library", "b")}, {Kind: "prune"}},
+		// adapter / projector GGUFs: next to a model file (fine), alone (listed, complete, and show answers 404: N6)
+		{up(g0), up(pool.kinds[0]), up(pool.kinds[1]),
+			{Kind: "create", Name: nm("library", "ma"), Files: []c04Digest{{Hex: c04Sum(g0)}, {Hex: c04Sum(pool.kinds[0])}}},
+			{Kind: "create", Name: nm("library", "mj"), From: &c04Name{"registry.ollama.ai", "library", "ma", "latest"}, Sys: pool.syss[0]},
+			{Kind: "delete", Name: nm("library", "ma")}, {Kind: "prune"},
+			{Kind: "create", Name: nm("library", "aonly"), Files: []c04Digest{{Hex: c04Sum(pool.kinds[0])}}}},
+		{up(pool.kinds[1]), {Kind: "create", Name: nm("library", "jonly"), Files: []c04Digest{{Hex: c04Sum(pool.kinds[1])}}}},
 		// every result class of every API operation once, deterministically (the coverage requirement of the check
 		// must not depend on the seed)
 		{up(g0), up(g0), {Kind: "upload", Content: g1, D: c04Digest{Hex: c04Sum(g0)}}, {Kind: "upload", Content: pool.texts[0], D: c04Digest{Hex: c04Sum(g1)}},
